@@ -124,7 +124,7 @@ CHECKS.update({
         note='that delta_t(theta) describes the physical disk is the documented convention, not derived', ref='8'),
     'C11': dict(
         level='other', technique='witness-guided symbolic interpretation: vertices, windows and distances are symbols with exact rational witness values, comparisons are decided at the witness, reported vertices stay exact terms and are compared with a reference model written from the definition (spec/clip.py); floating-point exactness tags for the interpolation',
-        text='Static: the shear t+d*lambda*m_n/h and its composition law; _chop equals polygon-intersect-half-plane for every order type of 3- and 4-vertex polygons against the cut (both directions; exact terms for generic order types, numerically on the cut); Frame.chop refuses a chopper in front of the frame and otherwise reports exactly the polygons of the reference model for every subframe x window in any window order; FrameSequence.chop is independent of the listing order, chopping in two calls equals chopping in one, and __getitem__ propagates the last frame not beyond the distance (also with co-located choppers); an intersection vertex carries bit-exactly the window edge as its time and bit-exactly the endpoint wavelength when both endpoints carry the same wavelength; produced subframes are regular.',
+        text='Static: the shear t+d*lambda*m_n/h and its composition law; chopping by one window edge (through Frame.chop) equals polygon-intersect-half-plane for every order type of 3- and 4-vertex polygons against the cut (both directions; exact terms for generic order types, numerically on the cut); Frame.chop refuses a chopper in front of the frame and otherwise reports exactly the polygons of the reference model for every subframe x window in any window order; FrameSequence.chop is independent of the listing order, chopping in two calls equals chopping in one, and __getitem__ propagates the last frame not beyond the distance (also with co-located choppers); an intersection vertex carries bit-exactly the window edge as its time and bit-exactly the endpoint wavelength when both endpoints carry the same wavelength; produced subframes are regular.',
         note='rounding of the interpolation for unequal endpoints is not decided; the reference model is trusted', ref='8'),
     'C12': dict(
         level='other', technique='abstract interpretation of the whole SQW builder over an abstract byte file (sa/absio.py: concrete bytes for integers and text, symbolic cells with width and byte order for floats) for a finite set of configurations; independent decoder of the documented layout (spec/sqwfmt.py); the package reader interpreted on the same file',
